@@ -70,7 +70,7 @@ NAMES = sorted(refdt.REFERENCE)
 _NEVER_REJECT = ("string", "null", "string-list")
 
 FLOORS = {
-    "quick": dict({"judged": 400000, "unjudged": 1000,
+    "quick": dict({"judged": 3000000, "unjudged": 1000,
                    "random_strings": 100000},
                   **{n + ":accepted": 20 for n in NAMES},
                   **{n + ":rejected": 20 for n in NAMES
